@@ -438,7 +438,7 @@ def conds(tier):
                 bounds="all texts of length <= %d over all Unicode scalar values" % (2 if q else 3)),
         xh.Cond(M, "c17_escape_class", t(300, 1800), examples=["cls=0, cp=7, nxt=11", "cls=2, cp=160, nxt=10", "cls=6, cp=128512, nxt=22", "cls=1, cp=92, nxt=23"],
                 bounds="7 code-point classes x symbolic code point in the class x %d following characters (hex digits, quote, backslash, ?, other)" % len(FOLLOW)),
-        xh.Cond(M, "c17_overloads", t(300, 1800), examples=["shape=0, q=0, sym='id'", "shape=4, q=1, sym='id'", "shape=9, q=0, sym='zz'", "shape=12, q=0, sym='a'", "shape=13, q=2, sym='a'", "shape=14, q=1, sym='b'", "shape=15, q=0, sym='a'", "shape=16, q=2, sym='a'"],
+        xh.Cond(M, "c17_overloads", t(300, 1800), examples=["shape=0, q=0, sym='id'", "shape=4, q=1, sym='id'", "shape=9, q=0, sym='zz'", "shape=12, q=0, sym='a'", "shape=13, q=2, sym='a'", "shape=14, q=1, sym='b'", "shape=15, q=0, sym='a'", "shape=16, q=2, sym='a'", "shape=16, q=3, sym='a'", "shape=15, q=1, sym='a'"],
                 bounds="17 member-definition shapes (with per-parameter documentation; default values as text, as a cross-reference element, empty) x 12 queries x symbolic parameter name (len <= 3)"),
         xh.Cond(M, "c17_xml_folder", t(120, 600), kind="shape-bounded", examples=["kind=0, pos=0, target=0", "kind=1, pos=2, target=0", "kind=2, pos=3, target=2", "kind=3, pos=1, target=1"],
                 bounds="real XML folder: 4 compound kinds x 4 positions in index.xml x 4 class-name forms, with decoy compounds"),
